@@ -470,6 +470,13 @@ where
                     };
                     match r {
                         Ok(()) => Ok(()),
+                        Err(f) if f.sig.starts_with("infra/") => {
+                            // the harness could not set the case up (no port, no process, ...): not a verdict
+                            if counting {
+                                ctx.inconclusive(&format!("{sub}: {}: {}", f.sig, f.msg.chars().take(200).collect::<String>()));
+                            }
+                            Ok(())
+                        }
                         Err(f) => {
                             if ctx.is_known(&f.sig).is_some() {
                                 if counting {
